@@ -1,18 +1,17 @@
-# per-property configuration of ./check (also the source of MANIFEST.json, see mkmanifest.py)
+# per-property configuration of ./check: one JSON file per claimed property in cfg/ (also the source of MANIFEST.json)
+import glob, json, os
+_D = os.path.dirname(os.path.abspath(__file__))
 BASE_NOTE = ("Trusted: Lean 4.33.0 kernel; axioms per theorem are printed into the evidence (at most propext, Classical.choice, Quot.sound; "
              "no native_decide/bv_decide/sorry/own axioms); the Go->Lean translator tools/gen; the correspondence harness, which is differential "
              "testing and bounds rather than proves model<->code agreement. ")
-PROPS = {
- "C06": dict(
-   gen=["Bool3"],
-   claim="The four truth tables are translated from booleans.go on every run and proved equal to the FHIRPath tables for all operands; "
-         "singleton evaluation, commutativity, De Morgan and implies = not-or are theorems for all operand collections; the operand-form matrix is "
-         "run exhaustively end to end against the model.",
-   note=BASE_NOTE + "Hand-modelled (tied by exhaustive correspondence over operand forms): Collection.ToSingletonBoolean/ToBool, BooleanExpression.Evaluate, impl.Not; "
-        "operand items are abstracted to {Boolean, other} as observed on the real operands.",
-   trusted=["hand model of Collection.ToSingletonBoolean/ToBool and BooleanExpression.Evaluate (tied by correspondence)"],
-   assumptions=["operand items are abstracted to {Boolean b, other}; system.From maps FHIR boolean elements to Booleans (observed by the harness on each operand)"],
- ),
-}
+PROPS = {}
+for f in sorted(glob.glob(_D + "/cfg/C*.json")):
+    c = json.load(open(f))
+    c["note"] = BASE_NOTE + c.get("note", "")
+    PROPS[os.path.basename(f)[:-5]] = c
 _NY = "check not built yet (work in progress; see DESIGN.md section 8 for the build order)"
-NOT_CLAIMED = {p: _NY for p in ["C01","C02","C03","C04","C05","C07","C08","C09","C10","C11","C12","C13","C14","C15","C16","C17","C18","C19","C20"]}
+NOT_CLAIMED = {("C%02d" % i): _NY for i in range(1, 21)}
+try:
+    NOT_CLAIMED.update(json.load(open(_D + "/cfg/not_claimed.json")))
+except FileNotFoundError:
+    pass
